@@ -1,13 +1,15 @@
-"""C04 part B placeholder (filled in below)."""
+"""C04 part B: the weight actually applied by propagate() = |imp| * max(0, cos theta) with the NaN / window rule (IEEE-754)."""
+from . import propf
 
 
 def cases(tier):
-    return []
+    out = [{"type": "B", "check_id": "C04", "mode": "rule", "restricted": False, "n_walkers": 2, "dt": 0.01},
+           {"type": "B", "check_id": "C04", "mode": "rule", "restricted": True, "n_walkers": 2, "dt": 0.01}]
+    if tier == "thorough":
+        out += [{"type": "B", "check_id": "C04", "mode": "rule", "restricted": False, "n_walkers": 3, "dt": 0.005},
+                {"type": "B", "check_id": "C04", "mode": "rule", "restricted": False, "n_walkers": 2, "dt": 0.5}]
+    return out
 
 
-def run(args, seed, known):
-    raise NotImplementedError
-
-
-def replay(data):
-    raise NotImplementedError
+run = propf.run
+replay = propf.replay
